@@ -77,12 +77,14 @@ theorem gen_ceil_div (bits a b : Nat) (ha : a < 2 ^ bits) (hb : 0 < b) :
   · subst h0; simp [ceil_div, ceilDiv]
   · have hle := ceilDiv_le_self a b hb
     rw [ceilDiv_pos_eq a b h0] at hle ⊢
-    have h1 : 1 ≤ a := by omega
-    have hbz : ¬ b = 0 := by omega
-    have hlt : (a - 1) / b + 1 < 2 ^ bits := by omega
     have hbeq : (a == 0) = false := by simp [h0]
-    simp only [ceil_div, hbeq, MachInt.sub, MachInt.div, MachInt.add, bind, Option.bind, if_pos h1, if_neg hbz,
-      if_pos hlt, pure, Bool.false_eq_true, if_false]
+    -- written so that a commuted `+` or `1 + …` in the source keeps the proof: each checked operation's side condition is
+    -- discharged by `omega` whatever its syntactic form
+    simp only [ceil_div, hbeq, MachInt.sub, MachInt.div, MachInt.add, bind, Option.bind, pure, Bool.false_eq_true, if_false]
+    rw [if_pos (by omega)]; simp only []
+    rw [if_neg (by omega)]; simp only []
+    rw [if_pos (by omega)]
+    all_goals (first | rfl | (congr 1; omega))
 
 /-- `math::ceil_div_usize`: the `const fn` twin, proved from its own regenerated text -/
 theorem gen_ceil_div_usize (U a b : Nat) (ha : a < 2 ^ U) (hb : 0 < b) :
@@ -91,12 +93,14 @@ theorem gen_ceil_div_usize (U a b : Nat) (ha : a < 2 ^ U) (hb : 0 < b) :
   · subst h0; simp [ceil_div_usize, ceilDiv]
   · have hle := ceilDiv_le_self a b hb
     rw [ceilDiv_pos_eq a b h0] at hle ⊢
-    have h1 : 1 ≤ a := by omega
-    have hbz : ¬ b = 0 := by omega
-    have hlt : (a - 1) / b + 1 < 2 ^ U := by omega
     have hbeq : (a == 0) = false := by simp [h0]
-    simp only [ceil_div_usize, hbeq, MachInt.sub, MachInt.div, MachInt.add, bind, Option.bind, if_pos h1, if_neg hbz,
-      if_pos hlt, pure, Bool.false_eq_true, if_false]
+    -- written so that a commuted `+` or `1 + …` in the source keeps the proof: each checked operation's side condition is
+    -- discharged by `omega` whatever its syntactic form
+    simp only [ceil_div_usize, hbeq, MachInt.sub, MachInt.div, MachInt.add, bind, Option.bind, pure, Bool.false_eq_true, if_false]
+    rw [if_pos (by omega)]; simp only []
+    rw [if_neg (by omega)]; simp only []
+    rw [if_pos (by omega)]
+    all_goals (first | rfl | (congr 1; omega))
 
 /-- `math::round_up(a, b)`: the least multiple of `b` that is `≥ a`, and it overflows exactly when that multiple
     does not fit the type (only the final multiplication can overflow). -/
